@@ -28,11 +28,23 @@ def main(argv):
     if not argv:
         print(__doc__)
         return 2
+    if argv[0] == '--setup':
+        import glomsim.kernel, glomsim.build, glomsim.gen, glomsim.simrun
+        G = glomsim.simrun.make_instance()
+        assert G.glom({'a': {'b': 1}}, 'a.b') == 1
+        os.makedirs(runner.REPLAYS, exist_ok=True)
+        os.makedirs(runner.EVIDENCE, exist_ok=True)
+        print('glomsim ready; source fingerprint', glomsim.loader.src_fingerprint())
+        return 0
     if argv[0] == '--replay':
         return runner.replay_file(argv[1])
     if argv[0] == '--selftest':
         from glomsim import selftest
         return selftest.main(argv[1:])
+    digests_out = None
+    if argv[0] == '--digests':
+        digests_out = argv[1]
+        argv = argv[2:]
     prop = argv[0].upper()
     tier = os.environ.get('VERIF_TIER') or (argv[1] if len(argv) > 1 else 'quick')
     if len(argv) > 1 and argv[1] in ('quick', 'thorough'):
@@ -52,6 +64,11 @@ def main(argv):
           f' GLOM_SRC={os.environ.get("GLOM_SRC", "/repo")}')
     try:
         mod, agg, broken = runner.run_batch(prop, tier, seed, **kw)
+        if digests_out:
+            import json
+            with open(digests_out, 'w') as f:
+                json.dump({'digests': agg['digests'], 'harness_errors': agg['harness_errors']}, f)
+            return 2 if broken else 0
         return runner.report(prop, tier, seed, mod, agg, broken)
     except Exception:
         import traceback
